@@ -207,6 +207,20 @@ def run(ctx):
             ta.center_coordinates(); tb.center_coordinates()
             r_pc = np.array(md.rmsd(ta, tb, frame=frame, precentered=True), dtype=np.float64)
             ctx.count("precentered calls")
+            # coordinates edited in place through the array that .xyz hands out (the documented hazard), then centred again as the
+            # docstring of md.rmsd tells the user to: the precentered result must be that of the coordinates as they are now
+            ta.xyz[:, : max(1, n_tot // 2)] += np.float32(0.75) * scale
+            ta.center_coordinates()
+            r_re = np.array(md.rmsd(ta, tb, frame=frame, precentered=True), dtype=np.float64)
+            ctx.count("precentered calls after an in-place edit and re-centring")
+            for f in range(nfr):
+                Ae = np.array(ta.xyz[f], dtype=np.float64); Be = np.array(tb.xyz[frame], dtype=np.float64)
+                m_e, Ga_e, Gb_e, lam_e, gap_e, _, _ = kabsch(Ae, Be)
+                tol_e = tol_msd((Ga_e + Gb_e) / n_tot, gap_e / max(lam_e, 1e-30), float(max(np.abs(Ae).max(), np.abs(Be).max())), np.sqrt(max(m_e, 0)))
+                if abs(r_re[f] ** 2 - m_e) > 4 * tol_e:
+                    viol("rmsd|precentered|after-inplace-edit", "center_coordinates(); edit through .xyz; center_coordinates(); rmsd(precentered=True) = %.6g, the minimum for the current coordinates is %.6g" % (
+                        r_re[f], np.sqrt(max(m_e, 0))), rp)
+                    break
         else:
             r_pc = None
         # superpose
